@@ -108,7 +108,26 @@ def run(ck):
     ck.verdict(bad is None, "2", "T2-all-exits", rwb, "always-rearms-poller", "register_waker re-arms the poller on every path (the registration is one-shot: each wait needs its own arming)", "register_waker can return without re-arming the one-shot registration (e.g. when a waker is still stored): the fd's next readiness is never reported and the task is never woken", site=rwb.where(), path=path_descr(rwb, bad) if bad else None)
     st_i = [i for i, j, st in T.stores_to_field(rwb, "interest")]
     st_w = [i for i, j, st in T.stores_to_field(rwb, "waker")]
-    ok = bool(rr) and bool(st_i) and bool(st_w) and all(T.t3_dominated_by_any(rwb, c.bb, st_i) and T.t3_dominated_by_any(rwb, c.bb, st_w) for c in rr)
+    # the stored waker may be kept when it already wakes the task that is polling (Waker::will_wake): the only way
+    # around the waker store is the true edge of that test on the stored waker
+    keep_e = []
+    for c in rwb.calls():
+        if c.name == "will_wake" and not rwb.is_cleanup(c.bb) and c.args and T.path_has(rwb, c.args[0], ".waker"):
+            tr_, fa_ = T.bool_split(rwb, c.bb)
+            keep_e += tr_
+    def waker_ok(c):
+        if T.t3_dominated_by_any(rwb, c.bb, st_w):
+            return True
+        if not keep_e:
+            return False
+        if c.bb not in rwb.reachable([0], removed_blocks=set(st_w), removed_edges=set(keep_e)):
+            return True
+        # the kept/new decision may be carried in a local across calls (`let new_waker = if keep {None} else {Some(..)}`):
+        # ask the path-sensitive search whether a feasible path avoids the store
+        import pathsens
+
+        return pathsens.find_feasible_path(rwb, [0], [c.bb], removed_blocks=set(st_w), removed_edges=set(keep_e)) is None
+    ok = bool(rr) and bool(st_i) and bool(st_w) and all(T.t3_dominated_by_any(rwb, c.bb, st_i) and waker_ok(c) for c in rr)
     ck.verdict(ok, "2", "T3-must-precede", rwb, "store-interest+waker<reregister", "interest and waker are stored before the poller is re-armed", "the poller is re-armed before the new interest/waker are stored (an event could arrive with no waker to wake)", site=rwb.where())
     for i, j, st in T.stores_to_field(rwb, "interest"):
         ck.verdict(T.resolves_to_arg(rwb, st["rv"]["o"], 2), "2", "T6-provenance", rwb, "interest:=parameter", "the stored interest is the requested one", "register_waker stores an interest other than the requested one", site=rwb.where(i))
